@@ -7,13 +7,22 @@ from lib.tlaval import to_tla
 
 LEVEL = 'model_checking'
 EPS = 1e-6
-ALL_ACTS = ['modereq', 'addplayer', 'score', 'var', 'eb', 'lb', 'shot', 'ach', 'mode', 'timer', 'endgame']
+ALL_ACTS = ['modereq', 'addplayer', 'score', 'var', 'eb', 'lb', 'shot', 'ach', 'mode', 'timer', 'endgame', 'tv', 'hold', 'late']
 INTVARS = ['score', 'bonus', 'ball', 'extra_balls', 'shot_sh1', 'shot_sh2', 'shot_sh3', 'shot_sh1_enabled',
            'shot_sh2_enabled', 'gm2_t2_tick']
-KNOWN_VARS = set(INTVARS) | {'index', 'number', 'restart_modes_on_next_ball', 'c1_state', 'a1_state', 'q1_state', 'c2_state',
+TVARS = ['ini', 'sel']         # player variables holding strings / None / ints (Players!TVars)
+KNOWN_VARS = set(INTVARS) | set(TVARS) | {'index', 'number', 'restart_modes_on_next_ball', 'c1_state', 'a1_state', 'q1_state', 'c2_state',
                              'achievements'}
 CONFIGS = [dict(bpg=2, maxp=3), dict(bpg=3, maxp=2), dict(bpg=2, maxp=1)]
-MONITORS = ['FrameOK', 'FreshOK', 'RestoreOK', 'VarEventOK', 'LiveOK', 'OwnOK']
+# code-as-is deviations from the statement that the Trace spec can name (PlayersTrace!DevLate)
+DEVIATIONS = ['LateModeStart']
+DEV_WHAT = {'LateModeStart': 'a game mode that is started while the ended ball still waits for another game mode to stop (held '
+                             'mode_<name>_stopping / ball_ending queue) is not stopped when the ball finally ends: it keeps running '
+                             'with its devices attached to the state of the player who played that ball, so progress events during '
+                             'the NEXT player\'s turn change the previous player\'s persisted state (mode.py start() only asks for '
+                             'game and player; mode_controller._ball_ending stops the modes active at that moment only; '
+                             '_player_turn_ended stops nothing)'}
+MONITORS = ['FrameOK', 'FreshOK', 'RestoreOK', 'VarEventOK', 'TurnOK', 'LiveOK', 'OwnOK']
 
 
 # ---- machine under test ------------------------------------------------------------------------------------------
@@ -46,6 +55,9 @@ player_vars:
   bonus:
     initial_value: 2
     value_type: int
+  ini:
+    initial_value: ""
+    value_type: str
 shot_profiles:
   prof3:
     loop: false
@@ -57,7 +69,7 @@ shot_profiles:
     with open(d + '/modes/gm1/config/gm1.yaml', 'w') as f:
         f.write("""#config_version=6
 mode:
-  start_events: ball_starting
+  start_events: ball_starting, start_gm1
   priority: 100
 counters:
   c1:
@@ -175,12 +187,19 @@ def mc_module(configs):
 EXTENDS Players
 MCConfigs == {%s}
 \* schedule shaping for simulation only: most of the time players join right at the start of a first ball
-GenShape == (ph = "ball" /\ P[cur].ball = 1 /\ np < cfg.maxp /\ bops = 0 /\ nops %% 4 # 3) => act'.op = "addplayer"
+\* a ball that waits for the held stop is released after a few steps; a held stop is often followed by the drain
+GenShape == /\ (ph = "ball" /\ P[cur].ball = 1 /\ np < cfg.maxp /\ bops = 0 /\ nops %% 4 # 3) => act'.op = "addplayer"
+            /\ (ph = "ending" /\ bops >= 2) => act'.op = "release"
+            /\ (ph = "ball" /\ vol.stp /\ nops %% 2 = 0) => act'.op \in {"ballend", "endgame"}
+            /\ (act'.op = "ballend" /\ act'.h) => nops %% 3 = 0
+\* start requests while an ended ball waits: now and then, as the code answers them (granted)
+            /\ (act'.op = "latereq") => (act'.run /\ act'.m = "gm1" /\ bops = 0 /\ nops %% 5 = 0)
+            /\ (ph = "ending" /\ bops = 0 /\ nops %% 5 = 0 /\ "late" \in Acts /\ nops < MaxOps) => act'.op = "latereq"
 =============================================================================
 """ % ', '.join(to_tla(c) for c in configs)
 
 
-def cfg_text(spec, configs_def, acts, maxops, maxadv, maxgames, maxeb, props, ballops=1000000, maxreq=2):
+def cfg_text(spec, configs_def, acts, maxops, maxadv, maxgames, maxeb, props, ballops=1000000, maxreq=2, dev=()):
     return """SPECIFICATION %s
 CONSTANTS
   Configs <- %s
@@ -192,9 +211,10 @@ CONSTANTS
   MaxEB = %d
   MaxBallOps = %d
   MaxReq = %d
-  Deviations = {}
+  Deviations = {%s}
 %sCHECK_DEADLOCK FALSE
-""" % (spec, configs_def, ', '.join('"%s"' % a for a in acts), maxops, maxadv, maxgames, maxeb, ballops, maxreq, props)
+""" % (spec, configs_def, ', '.join('"%s"' % a for a in acts), maxops, maxadv, maxgames, maxeb, ballops, maxreq,
+       ', '.join('"%s"' % d for d in dev), props)
 
 
 PROPS = ('INVARIANT TypeOK\nINVARIANT Attached\nINVARIANT NothingSurvives\nPROPERTY Frame\nPROPERTY Restore\n'
@@ -205,14 +225,17 @@ MC_RUNS = [
     ('two-games', [dict(bpg=2, maxp=2)], ['modereq', 'addplayer', 'score', 'mode', 'endgame'], (4, 7), 0, 2, 0),
     ('shots+achievement+vars', [dict(bpg=2, maxp=2), dict(bpg=3, maxp=1)], ['addplayer', 'shot', 'ach', 'var'], (4, 6), 0, 1, 0),
     ('gm2+timer', [dict(bpg=2, maxp=2)], ['addplayer', 'mode', 'timer', 'eb'], (5, 7), (3, 4), 1, 1),
+    ('held-stop', [dict(bpg=2, maxp=2)], ['addplayer', 'mode', 'hold', 'late', 'lb', 'eb', 'endgame'], (4, 6), 0, 1, 1),
+    ('typed-vars', [dict(bpg=2, maxp=2)], ['addplayer', 'tv', 'endgame'], (3, 4), 0, 1, 0),
 ]
 
 # schedule generation profiles: (action families, ops per ball, share of the schedules)
 GEN_PROFILES = [
-    (ALL_ACTS, 6, 0.3),
-    (['modereq', 'addplayer', 'lb', 'mode', 'score', 'eb'], 5, 0.25),
-    (['modereq', 'addplayer', 'shot', 'ach', 'var', 'endgame', 'eb'], 5, 0.2),
-    (['modereq', 'addplayer', 'mode', 'timer'], 6, 0.25),
+    ([a for a in ALL_ACTS if a not in ('tv', 'late')], 6, 0.27),
+    (['modereq', 'addplayer', 'lb', 'mode', 'score', 'eb', 'hold', 'late'], 5, 0.23),
+    (['modereq', 'addplayer', 'shot', 'ach', 'var', 'endgame', 'eb'], 5, 0.18),
+    (['modereq', 'addplayer', 'mode', 'timer', 'hold'], 6, 0.22),
+    (['addplayer', 'tv', 'var', 'endgame', 'eb'], 5, 0.10),
 ]
 
 # ---- execution on real mpf -------------------------------------------------------------------------------------------
@@ -226,6 +249,25 @@ def _lbp(x):
     if isinstance(v, (list, tuple)):
         v = sum((1 << i) for i, b in enumerate(v) if b)
     return {'x': True, 'v': int(v) if v is not None else 0, 'en': bool(x.enabled), 'done': bool(x.completed)}
+
+
+def enc(x):
+    """A player variable value / change as written in Players!TVals."""
+    if x is None:
+        return 'n'
+    if x is True:
+        return 'T'
+    if x is False:
+        return 'F'
+    if isinstance(x, int):
+        return 'i:%d' % x
+    if isinstance(x, str):
+        return 's:' + x
+    return '?:' + repr(x)[:40]
+
+
+def dec(s):
+    return None if s == 'n' else int(s[2:]) if s[0] == 'i' else s[2:]
 
 
 def _flag(v, name):
@@ -246,7 +288,8 @@ def project_player(p, pos):
             'e': [_flag(v, 'shot_sh1_enabled'), _flag(v, 'shot_sh2_enabled')],
             'ach': (ach.get('ach') or [None])[0] or 'none',
             'tick': int(v['gm2_t2_tick']) if v.get('gm2_t2_tick') is not None else -1,
-            'rs': any(getattr(x, 'name', None) == 'gm2' for x in rs), 'xv': xv + sum(1 for x in rs if getattr(x, 'name', None) != 'gm2')}
+            'rs': any(getattr(x, 'name', None) == 'gm2' for x in rs), 'xv': xv + sum(1 for x in rs if getattr(x, 'name', None) != 'gm2'),
+            'tv': {n: enc(v[n]) if n in v else '-' for n in TVARS}}
 
 
 def project_live(m):
@@ -261,7 +304,7 @@ def project_live(m):
             's': [int(m.shots['sh%d' % i].state) for i in (1, 2, 3)],
             'e': [bool(m.shots['sh%d' % i].enabled) for i in (1, 2, 3)],
             'ach': m.achievements['ach'].state or 'none',
-            'tick': int(t.ticks) if t.ticks is not None else -1, 'trun': bool(t.running)}
+            'tick': int(t.ticks) if t.ticks is not None else -1, 'trun': bool(t.running), 'stp': bool(m.modes['gm2'].stopping)}
 
 
 class GameRun:
@@ -271,11 +314,17 @@ class GameRun:
         self.sched = sched
         self.rnd = random.Random(seed)
         self.evlog = []
+        self.tevlog = []
         self.held = []
+        self.stopq = []         # held mode_gm2_stopping queue events
+        self.arm = False        # hold the next mode_gm2_stopping
         self.ev = []
         for n in INTVARS:
             self.m.events.add_handler('player_' + n, self._mk(n), priority=1)
+        for n in TVARS:
+            self.m.events.add_handler('player_' + n, self._mkt(n), priority=1)
         self.m.events.add_handler('player_turn_starting', self._hold, priority=1)
+        self.m.events.add_handler('mode_gm2_stopping', self._hold_stop, priority=1)
         self.m.playfield.add_ball = lambda **kwargs: None
         self.m.ball_controller.num_balls_known = 3
 
@@ -286,6 +335,20 @@ class GameRun:
             self.evlog.append([n, num(kwargs.get('value')), num(kwargs.get('prev_value')), num(kwargs.get('change')),
                                num(kwargs.get('player_num'))])
         return hnd
+
+    def _mkt(self, n):
+        def hnd(**kwargs):
+            pn = kwargs.get('player_num')
+            self.tevlog.append([n, enc(kwargs.get('value', '?')), enc(kwargs.get('prev_value', '?')), enc(kwargs.get('change', '?')),
+                                pn if isinstance(pn, int) else -9999])
+        return hnd
+
+    def _hold_stop(self, queue, **kwargs):
+        """E.g. a show or slide that is played out before the mode is torn down."""
+        if self.arm:
+            self.arm = False
+            queue.wait()
+            self.stopq.append(queue)
 
     def _hold(self, queue, **kwargs):
         queue.wait()
@@ -298,10 +361,17 @@ class GameRun:
     def snap(self, a):
         g = self.m.game
         rec = dict(a)
+        if a['op'] == 'latereq':        # whether the request was granted is observed, not prescribed
+            rec['run'] = bool(self.m.modes[a['m']].active)
         rec['pl'] = [project_player(p, i) for i, p in enumerate(g.player_list)] if g else []
         rec['live'] = project_live(self.m)
         rec['evs'] = self.evlog[:]
         del self.evlog[:]
+        rec['tevs'] = self.tevlog[:]
+        del self.tevlog[:]
+        rec['cur'] = int(g.player.number) if g and g.player else 0
+        tp = self.m.modes['gm1'].player
+        rec['turn'] = int(tp.number) if tp else 0
         self.ev.append(rec)
 
     def do(self, a):
@@ -312,6 +382,11 @@ class GameRun:
         elif op == 'modereq':
             if a['m'] == 'gm2' and self.rnd.random() < 0.5:
                 m.events.post('start_gm2')
+            else:
+                m.modes[a['m']].start()
+        elif op == 'latereq':
+            if a['m'] == 'gm2' or self.rnd.random() < 0.5:
+                m.events.post('start_' + a['m'])
             else:
                 m.modes[a['m']].start()
         elif op == 'turnstart':
@@ -341,12 +416,22 @@ class GameRun:
         elif op == 'modestart':
             m.events.post('start_gm2')
         elif op == 'modestop':
+            self.arm = bool(a.get('h'))
             m.events.post('stop_gm2')
+        elif op == 'release':
+            self.stopq.pop(0).clear()
+        elif op == 'settv':
+            pl = m.game.player_list[a['q'] - 1]
+            if self.rnd.random() < 0.5:
+                pl[a['var']] = dec(a['val'])
+            else:
+                setattr(pl, a['var'], dec(a['val']))
         elif op == 'timer':
             m.events.post('t2_' + a['kind'])
         elif op == 'adv':
             h.advance_time_and_run(1 + EPS)
         elif op == 'ballend':
+            self.arm = bool(a.get('h'))
             h.post_relay_event_with_params('ball_drain', balls=1)
         elif op == 'endgame':
             if self.rnd.random() < 0.5:
@@ -356,6 +441,7 @@ class GameRun:
         else:
             raise ValueError(op)
         self.settle()
+        self.arm = False
 
     def run(self):
         try:
@@ -388,7 +474,7 @@ def A(op, **kw):
 
 
 def handmade():
-    NG, TS, BE, AP = A('newgame'), A('turnstart'), A('ballend'), A('addplayer')
+    NG, TS, BE, AP = A('newgame'), A('turnstart'), A('ballend', h=False), A('addplayer')
     hit = lambda dev, k=0: A('lb', dev=dev, kind='hit', k=k)
     req = lambda m: A('modereq', m=m)
     out = []
@@ -400,7 +486,7 @@ def handmade():
     # a timer paused for 2 s when its player's ball ends; the next player plays on for a few seconds
     out.append((0, [NG, TS, AP, A('modestart'), A('timer', kind='start'), A('adv'), A('adv'), A('timer', kind='pause'), BE, TS,
                     A('adv'), A('adv'), A('adv'), A('adv'), BE, TS, A('adv'), A('timer', kind='start'), A('adv'), A('timer', kind='pause'),
-                    A('adv'), A('modestop'), A('adv'), A('adv'), A('adv'), BE, TS, A('modestart'), A('timer', kind='start'), A('adv'), BE]))
+                    A('adv'), A('modestop', h=False), A('adv'), A('adv'), A('adv'), BE, TS, A('modestart'), A('timer', kind='start'), A('adv'), BE]))
     # extra ball, early game end with an extra ball pending, shots rotate, achievement across turns
     out.append((1, [NG, TS, A('awardeb'), A('shot', i=1, kind='hit'), A('rotate'), A('ach', kind='enable'), A('ach', kind='start'),
                     A('shot', i=2, kind='enable'), AP, BE, A('shot', i=2, kind='hit'), A('var', kind='set'), BE, TS, A('var', kind='add'),
@@ -410,11 +496,34 @@ def handmade():
     out.append((2, [NG, TS, AP, hit('q1', 0), hit('q1', 1), hit('a1', 0), A('modestart'), hit('c3'), A('shot', i=3, kind='hit'),
                     A('shot', i=3, kind='disable'), BE, TS, hit('c3'), A('shot', i=3, kind='hit'), hit('a1', 1), A('lb', dev='c1', kind='disable', k=0),
                     hit('c1'), BE, NG, TS, hit('c1'), BE]))
+    # the stop of gm2 is held by a handler of its stopping event: across the end of the ball (the ball end waits, the
+    # devices stay with the player who played it), released before the drain, held at the drain itself, with an extra
+    # ball, with end_game
+    MS, MSH, BEH, REL = A('modestart'), A('modestop', h=True), A('ballend', h=True), A('release')
+    sh3 = A('shot', i=3, kind='hit')
+    out.append((0, [NG, TS, AP, MS, hit('c2'), hit('c2'), A('timer', kind='start'), A('adv'), MSH, hit('c2'), sh3, BE, hit('c2'), A('adv'),
+                    hit('c1'), sh3, hit('c3'), REL, req('gm2'), TS, hit('c2'), MS, hit('c2'), BEH, hit('c2'), A('adv'), REL, TS, hit('c2'),
+                    MSH, hit('c2'), REL, hit('c2'), MS, hit('c2'), MSH, MS, A('modestop', h=False), A('endgame'), hit('c2'), REL,
+                    NG, TS, A('awardeb'), MS, hit('c2'), MSH, BE, hit('c2'), REL, hit('c2'), BE, TS]))
+    out.append((1, [NG, TS, AP, hit('c1'), MS, hit('c2'), MSH, BE, hit('c2'), hit('c1'), REL, TS, hit('c2'), hit('c1'), MS, hit('c2'), BE, TS,
+                    hit('c2'), hit('c1'), MSH, BE, REL, TS, hit('c2'), BE, TS, hit('c2'), BE]))
+    # a start request for gm1 while the ended ball waits for gm2: whatever is granted must be gone before player 2 is up
+    late = lambda m: A('latereq', m=m, run=True)
+    out.append((0, [NG, TS, AP, hit('c1'), MS, MSH, BE, late('gm2'), late('gm1'), hit('c1'), REL, TS, hit('c1'), hit('c1'), BE, TS,
+                    hit('c1'), BE]))
+    # player variables holding strings / None: '' set again, '' <-> 'A', None -> 0, None -> 'A', another player's variable
+    tv = lambda q, var, val: A('settv', q=q, var=var, val=val)
+    out.append((1, [NG, TS, AP, tv(1, 'ini', 's:'), tv(1, 'ini', 's:A'), tv(1, 'ini', 's:A'), tv(1, 'ini', 's:'), tv(1, 'ini', 's:'),
+                    tv(2, 'ini', 's:A'), tv(1, 'sel', 'n'), tv(1, 'sel', 'i:0'), tv(1, 'sel', 'n'), tv(1, 'sel', 's:A'), tv(1, 'sel', 'i:1'),
+                    tv(1, 'sel', 'i:0'), tv(2, 'sel', 'i:0'), tv(2, 'sel', 'i:1'), tv(1, 'ini', 'n'), tv(1, 'ini', 'i:0'), BE, TS,
+                    tv(2, 'ini', 's:'), tv(2, 'ini', 'i:0'), tv(1, 'ini', 's:'), tv(2, 'sel', 'n'), tv(2, 'sel', 'n'), tv(2, 'sel', 's:'),
+                    tv(2, 'sel', 'i:0'), BE, TS, tv(1, 'ini', 'i:1'), A('endgame'), NG, TS, tv(1, 'ini', 's:'), tv(1, 'sel', 's:'), BE]))
     return out
 
 
 def validate(wd, traces):
-    """All traces in big batches; if violations are pervasive, small batches until a dozen rejected traces are diagnosed."""
+    """All traces in big batches; if violations are pervasive, small batches until a dozen traces are rejected.
+    Traces at which the model got stuck are diagnosed later (run), after the named deviations have been tried."""
     agg = tlc.TraceVerdict()
     n = 0
 
@@ -426,17 +535,17 @@ def validate(wd, traces):
         agg.wall += v.wall
         agg.runs += v.runs
         return n + k
-    n = merge(tlc.validate_traces(wd, 'PlayersTrace', 'Trace.cfg', traces[:24], batch=24), 0, len(traces[:24]))
+    n = merge(tlc.validate_traces(wd, 'PlayersTrace', 'Trace.cfg', traces[:24], batch=24, diagnose=False), 0, len(traces[:24]))
     if len(agg.rejected) >= 8:
         return agg, n
     try:
-        return agg, merge(tlc.validate_traces(wd, 'PlayersTrace', 'Trace.cfg', traces[24:], batch=150), 24, len(traces[24:]))
+        return agg, merge(tlc.validate_traces(wd, 'PlayersTrace', 'Trace.cfg', traces[24:], batch=150, diagnose=False), 24, len(traces[24:]))
     except tlc.TLCError as ex:
         if 'too many monitor violations' not in str(ex):
             raise
     for b0 in range(24, len(traces), 24):
         part = traces[b0:b0 + 24]
-        n = merge(tlc.validate_traces(wd, 'PlayersTrace', 'Trace.cfg', part, batch=24), b0, len(part))
+        n = merge(tlc.validate_traces(wd, 'PlayersTrace', 'Trace.cfg', part, batch=24, diagnose=False), b0, len(part))
         if len(agg.rejected) >= 12:
             break
     return agg, n
@@ -478,17 +587,51 @@ def run(ctx):
                          ''.join('INVARIANT %s\n' % x for x in MONITORS) + 'INVARIANT Reporter\n'))
     v, nval = validate(wd, traces)
     ctx.add_trace_verdict('PlayersTrace', v, nval)
+    # rejected executions: explained by a named code-as-is deviation?
+    explained = {}
+    cand = [i for i in sorted(v.rejected) if any(e.get('op') == 'latereq' for e in traces[i]['ev'])]
+    if cand:
+        with open(wd + '/TraceDev.cfg', 'w') as f:
+            f.write(cfg_text('TSpec', 'TConfigs', ALL_ACTS, 1000000, 1000000, 1000000, 1000000,
+                             ''.join('INVARIANT %s\n' % x for x in MONITORS) + 'INVARIANT Reporter\n', dev=DEVIATIONS))
+        v2 = tlc.validate_traces(wd, 'PlayersTrace', 'TraceDev.cfg', [traces[i] for i in cand], batch=24, diagnose=False)
+        ctx.add_trace_verdict('PlayersTrace(Deviations={%s})' % ','.join(DEVIATIONS), v2, 0)
+        explained = {cand[a]: DEVIATIONS[0] for a in v2.accepted}
+    stuck = [i for i, info in sorted(v.rejected.items()) if i not in explained and info.get('line') is None][:12]
+    if stuck:       # where did the model get stuck?
+        v3 = tlc.validate_traces(wd, 'PlayersTrace', 'Trace.cfg', [traces[i] for i in stuck], batch=24)
+        for a, info in v3.rejected.items():
+            v.rejected[stuck[a]] = info
     ops = {}
     for t in traces:
         for e in t['ev']:
             ops[e['op']] = ops.get(e['op'], 0) + 1
     ctx.coverage['actions_executed'] = ops
+    ctx.coverage['ball_ends_waiting_for_held_stop'] = {
+        'stop requested before the drain': sum(1 for t in traces for k, e in enumerate(t['ev'])
+                                               if k and e['op'] in ('ballend', 'endgame') and t['ev'][k - 1].get('live', {}).get('stp')),
+        'held at the drain': sum(1 for t in traces for e in t['ev'] if e['op'] == 'ballend' and e.get('h')),
+        'progress events while waiting': sum(1 for t in traces for k, e in enumerate(t['ev'])
+                                             if k and e['op'] in ('lb', 'shot', 'adv') and t['ev'][k - 1].get('live', {}).get('stp')
+                                             and not t['ev'][k - 1].get('live', {}).get('g1')),
+        'start requests while waiting': sum(1 for t in traces for e in t['ev'] if e['op'] == 'latereq')}
+    ctx.coverage['typed_variable_writes'] = {
+        'total': sum(1 for t in traces for e in t['ev'] if e['op'] == 'settv'),
+        'other player': sum(1 for t in traces for k, e in enumerate(t['ev']) if e['op'] == 'settv' and e['q'] != e.get('cur')),
+        'events seen': sum(len(e.get('tevs', [])) for t in traces for e in t['ev'] if e['op'] == 'settv')}
     ctx.coverage['games_with_players'] = {str(n): sum(1 for t in traces if max([len(e.get('pl', [])) for e in t['ev']] or [0]) == n)
                                           for n in (1, 2, 3)}
     ctx.sample({'kind': 'player-trace', 'cfg': traces[0]['cfg'],
                 'trace': [{k: e[k] for k in e if k not in ('live',)} for e in traces[0]['ev'][:5]]})
     for i, info in sorted(v.rejected.items()):
         ev = traces[i]['ev']
+        if i in explained:
+            ln = min([k + 1 for k, e in enumerate(ev) if k and e['op'] == 'release' and e['live']['g1'] and e['turn'] == 0]
+                     or [0])
+            ctx.violation('C11:' + explained[i], '%s [first seen at line %s of the schedule %s, cfg=%s]' % (
+                DEV_WHAT[explained[i]], ln, [dict(a) for a in jobs[i][2] if a['op'] != 'init'][:ln][-12:], traces[i]['cfg']),
+                {'job': [None, jobs[i][1], jobs[i][2], jobs[i][3]], 'line': ln, 'info': {k: x for k, x in info.items() if k != 'state'}})
+            continue
         if info.get('reason') == 'monitor':
             ln = (info.get('line') or 2) - 1        # l points at the next line to consume
             fe = ev[ln - 1] if 0 < ln <= len(ev) else {}
@@ -514,6 +657,13 @@ def run(ctx):
         'virtual time; all actions of a schedule happen at whole seconds (adv = 1 s + 1 us), timer tick interval 1 s, timed pause 2 s',
         'achievement transitions are taken from the observation (only ownership/restoration of the state is constrained)',
         'zero-change announce events (player added, variable created with its default) are not player-variable changes and are ignored',
+        'string/None/int valued player variables are written through the Player API (player[var] = v / setattr), also for a player '
+        'who is not up; a write of None posts no event (player.py announces ints, floats and strings only, as its docstring says); '
+        'floats are not exercised (not representable in the trace format)',
+        'the stop of gm2 is held by a test handler of the mode_gm2_stopping queue event (stands for a show / slide / queue_relay '
+        'played out before the mode is torn down) and let go by the release step',
+        'whether a start request for a game mode is granted while the ended ball waits for the held stop is taken from the '
+        'observation; either way the mode must have let go of the player when the turn is over',
     ]
 
 
